@@ -106,25 +106,44 @@ class _MeanFamily(Entry):
   min_batch = 0
 
   def cfg(self):
-    return st.builds(lambda nd, d: {'ndim': nd, 'd': d}, st.sampled_from([1, 1, 2]), st.integers(1, 3))
+    # offset: every value is shifted by 2**24 (exactly representable): data whose mean is huge compared with its spread
+    return st.builds(lambda nd, d, off: {'ndim': nd, 'd': d, 'offset': off}, st.sampled_from([1, 1, 2]), st.integers(1, 3),
+                     st.sampled_from([0, 0, 0, 0, 2**24]))
 
   def row(self, cfg):
     v = st.one_of(st.sampled_from(GRID), st.sampled_from(GRID), st.none())
     return v if cfg['ndim'] == 1 else st.lists(v, min_size=cfg['d'], max_size=cfg['d'])
+
+  def _f(self, cfg, x):
+    return NAN if x is None else float(x) + cfg.get('offset', 0)
 
   def make(self, cfg):
     from ml_metrics._src.aggregates import rolling_stats  # pylint: disable=g-import-not-at-top
     return getattr(rolling_stats, self.cls_name)()
 
   def args(self, cfg, rows):
+    g = lambda x: self._f(cfg, x)
     if cfg['ndim'] == 1:
-      return (np.array([f(r) for r in rows], dtype=float),)
-    return (np.array([[f(v) for v in r] for r in rows], dtype=float).reshape(len(rows), cfg['d']),)
+      return (np.array([g(r) for r in rows], dtype=float),)
+    return (np.array([[g(v) for v in r] for r in rows], dtype=float).reshape(len(rows), cfg['d']),)
 
   def _ref(self, cfg, rows):
+    # the reference works on the unshifted grid values (exact) and shifts mean and total afterwards; the variance is
+    # translation invariant
     if cfg['ndim'] == 1:
-      return ref.stats([f(r) for r in rows], 1)
-    return ref.stats([[f(v) for v in r] for r in rows], 2)
+      s = ref.stats([f(r) for r in rows], 1)
+    else:
+      s = ref.stats([[f(v) for v in r] for r in rows], 2)
+    off = cfg.get('offset', 0)
+    if off:
+      s = dict(s)
+      if isinstance(s['mean'], list):
+        s['mean'] = [m + off for m in s['mean']]
+        s['total'] = [t + off * c for t, c in zip(s['total'], s['count'])]
+      else:
+        s['mean'] = s['mean'] + off
+        s['total'] = s['total'] + off * s['count']
+    return s
 
   def equal(self, cfg, a, b):
     # a never-updated accumulator reports a scalar NaN where a 2-D one reports a vector of NaNs
@@ -136,6 +155,9 @@ class _MeanFamily(Entry):
       # count/total of an untouched accumulator is the scalar 0
       x, y = (a, b) if isinstance(a, list) else (b, a)
       return all(close(v, y) for v in x) and (y == 0)
+    if cfg.get('offset'):
+      # shifted data: a stable update loses about eps * |mean| * spread (1e-8 here), an unstable one eps * mean**2 (0.06)
+      return close(a, b, rtol=1e-9, atol=1e-5)
     return close(a, b)
 
   def nontrivial_row(self, cfg, rows):
